@@ -16,7 +16,11 @@ def specCfg : Cfg :=
     searchPrefix := "http"
     searchNeedles := ["://127.0.0.1", "://[::1]", "://169.254"]
     advPrefix := "http"
-    advNeedles := ["://127.0.0.1", "://[::1]", "://169.254"] }
+    advNeedles := ["://127.0.0.1", "://[::1]", "://169.254"]
+    tMax := 251824463999999999          -- datetime.max - datetime(2020, 1, 1) (the harness' epoch), µs
+    tdMaxUs := 86399999999999999999     -- timedelta.max, µs
+    tdLimitSec := 86400000000000        -- 1000000000 days
+    intMaxDigits := 4300 }
 
 def genCfg : Cfg :=
   { defaultMaxAgeSec := Gen.C03Tracker.defaultMaxAgeSec
@@ -25,6 +29,11 @@ def genCfg : Cfg :=
     searchPrefix := Gen.C03Tracker.searchLocationPrefix
     searchNeedles := Gen.C03Tracker.searchBadNeedles
     advPrefix := Gen.C03Tracker.advLocationPrefix
-    advNeedles := Gen.C03Tracker.advBadNeedles }
+    advNeedles := Gen.C03Tracker.advBadNeedles
+    -- CPython constants (datetime / timedelta / int digit limit), not in the library source:
+    tMax := 251824463999999999
+    tdMaxUs := 86399999999999999999
+    tdLimitSec := 86400000000000
+    intMaxDigits := 4300 }
 
 end Upnp.C03
